@@ -256,6 +256,25 @@ class ValueGen:
         return d[1]
 
 
+def _json_image(x):
+    """a canonical stand-in for what x serializes to (containers lose their class, enum members become their value)"""
+    import dataclasses
+    import enum
+    if isinstance(x, enum.Enum):
+        return _json_image(x.value)
+    if isinstance(x, (set, frozenset)):
+        return ("arr", tuple(sorted((_json_image(y) for y in x), key=repr)))
+    if hasattr(x, "_fields") and isinstance(x, tuple):
+        return ("obj", tuple((n, _json_image(getattr(x, n))) for n in x._fields))
+    if isinstance(x, (list, tuple)):
+        return ("arr", tuple(_json_image(y) for y in x))
+    if isinstance(x, dict):
+        return ("obj", tuple(sorted(((str(k), _json_image(y)) for k, y in x.items()), key=repr)))
+    if dataclasses.is_dataclass(x):
+        return ("obj", tuple((f.name, _json_image(getattr(x, f.name))) for f in dataclasses.fields(x)))
+    return (type(x).__name__, x)
+
+
 def satisfies(t, v, u, mod=None):
     """does the value respect the schema constraints carried by its type (a value *of* the type)"""
     import dataclasses
@@ -277,7 +296,10 @@ def satisfies(t, v, u, mod=None):
             if c.get("max_items") is not None and len(v) > c["max_items"]: return False
             if c.get("unique"):
                 items = list(v)
-                if any(x == y for i, x in enumerate(items) for y in items[i + 1:]): return False
+                # distinct Python values may have equal JSON images ([None] and frozenset({None}), E.A and its value)
+                imgs = [_json_image(x) for x in items]
+                if any(x == y or imgs[i] == imgs[i + 1 + j]
+                       for i, x in enumerate(items) for j, y in enumerate(items[i + 1:])): return False
         if c.get("min_props") is not None or c.get("max_props") is not None:
             base = t[2]
             while base[0] == "con":
